@@ -155,6 +155,43 @@ def unusual_failures(rep, rnd, stats):
                                   dict(case, nodes=nodes, traced=repr(run["res"]["exc"]), untraced=repr(plain["exc"])))
 
 
+def transport_failures(rep, rnd, stats):
+    """The run fails *between* nodes: publishing node k's output raises (a remote transport that drops the connection).  Every
+    node that started has exactly one SER — it succeeded — and the run ends with one error pipeline_end and the original exception."""
+    pipegen.setup()
+    from semantiva.execution.transport.in_memory import InMemorySemantivaTransport
+
+    class Dropping(InMemorySemantivaTransport):
+        def __init__(self, fail_on):
+            super().__init__()
+            self.fail_on, self.count = fail_on, 0
+
+        def publish(self, *a, **k):
+            self.count += 1
+            if self.count - 1 == self.fail_on:
+                raise ConnectionError("transport dropped the connection")
+            return super().publish(*a, **k)
+
+    nodes = [{"processor": "TSourceDef"}, {"processor": "TOp0"}, {"processor": "TProbe", "context_key": "p"}, {"processor": "TOp0"}]
+    for k in range(len(nodes)):
+        for detail, to_file in ((rnd.choice(tracegen.DETAILS), False), (rnd.choice(tracegen.DETAILS), True)):
+            run = tracegen.traced_run(nodes, {}, detail=detail, to_file=to_file, transport=Dropping(k))
+            stats["runs"] += 1
+            stats["by_kind"]["transport-publish-fails"] = stats["by_kind"].get("transport-publish-fails", 0) + 1
+            uuids = [r for r in run["records"] if r.get("record_type") == "pipeline_start"]
+            ids = [n["node_uuid"] for n in (uuids[0].get("canonical_spec") or uuids[0].get("pipeline_spec_canonical") or {}).get("nodes", [])] if uuids else []
+            got = observed_events(run["records"], ids) if ids else [str(r.get("record_type")) for r in run["records"]]
+            want = ["start"] + [f"ser:{i}:succeeded" for i in range(k + 1)] + ["end:error"]
+            case = {"fault": "transport-publish-fails", "after_node": k, "detail": detail, "output": "file" if to_file else "directory", "nodes": nodes}
+            if ids and got != want:
+                rep.add_violation("trace-not-wellformed:transport-publish-fails",
+                                  f"publishing the output of node {k} raises: record sequence {got}, documented {want}", dict(case, observed=got, documented=want))
+            if not isinstance(run["res"]["exc"], ConnectionError):
+                rep.add_violation("exception-changed:transport-publish-fails", f"the caller receives {run['res']['exc']!r} instead of the transport's exception", case)
+            if not run["driver_closed"] or not run["lines_complete"]:
+                rep.add_violation("trace-not-flushed-or-closed:transport-publish-fails", "the trace file is not flushed and closed when the call returns", case)
+
+
 def run(tier: str) -> int:
     rep = core.Report(PROP, tier)
     rnd = core.rng(PROP)
@@ -203,6 +240,7 @@ def run(tier: str) -> int:
                     samples.append(dict(case, nodes=[x["processor"] for x in nodes], events=got))
     exotic_runs(rep, rnd, stats, tier)
     unusual_failures(rep, rnd, stats)
+    transport_failures(rep, rnd, stats)
     if shape is not None:
         try:
             ans = core.Driver().run(reqs)
